@@ -128,6 +128,9 @@ PROPS = {
     ),
     "C20": dict(
         props="Props/C20.v", tables=["core"],
+        src=["py_Feature___eq__", "py_Feature___lt__", "py_Feature___str__", "py_Relation___eq__", "py_Relation__sort_key",
+             "py_Relation___lt__", "py_Constraint___eq__", "py_Constraint___lt__", "py_FeatureModel___eq__",
+             "py_FeatureModel_get_features", "py_FeatureModel_get_relations"],
         suites=[suite_e.run, suite_known.run_c20_known],
         rule=("suite Q2: ==, !=, hash(), use as set/dict keys on pairs (m, m') of independently built models, and the "
               "full pairwise ==/hash/< matrices of their features, relations and constraints, vs the model; m' = an "
@@ -168,6 +171,7 @@ PROPS = {
     ),
     "C08": dict(
         props="Props/C08.v", tables=["core", "glencoe"],
+        src=["py__to_json", "py__get_features_info", "py__get_tree_info", "py__get_constraints_info", "py__get_ctc_info"],
         suites=[suite_glencoe.run],
         rule=("suites W-glencoe / R-glencoe: GlencoeWriter.transform() (returned text = file, parsed with json.loads) vs "
               "[glencoe_write]; GlencoeReader on the file vs [glencoe_read] as pointer-annotated models; inputs: random models "
